@@ -2,6 +2,7 @@ package main
 
 import (
 	"bytes"
+	"compress/gzip"
 	"encoding/base64"
 	"fmt"
 	"strings"
@@ -16,6 +17,10 @@ type Variant struct {
 	Absent bool   `json:"absent"`
 	Phase  string `json:"phase"`
 	TCP    bool   `json:"tcp"`
+
+	Combos      []int `json:"combos"`       // request-header combinations sent with this value (indexes into Config.Combos)
+	TCPCombos   []int `json:"tcp_combos"`   // ... also through main()'s real listener
+	ProbeCombos []int `json:"probe_combos"` // ... with methods that are not registered on the path
 
 	Family string `json:"family,omitempty"` // generation family: names the violation class when a variant is wrongly let through
 	Class  string `json:"-"`
@@ -233,3 +238,171 @@ func nonCanonical(ok string) string {
 }
 
 func mustDecode(s string) []byte { b, _ := base64.StdEncoding.DecodeString(s); return b }
+
+// ---------------------------------------------------------------------------------------------------------------
+// request-header vocabulary of the router-wide middlewares (everything except Authorization)
+
+// Combo is one combination of request headers sent along with an Authorization value.
+type Combo struct {
+	ID      string      `json:"id"`
+	Headers [][2]string `json:"headers"`
+	Body    []byte      `json:"body,omitempty"`
+}
+
+// VariedHeaders: every request header the product varies.  The reporter reads the repository's middleware source
+// (static.go ScanHeaderReads) and refuses to run (exit 2) if it reads a header that is not in this list.
+var VariedHeaders = map[string][]string{
+	"Authorization":                  nil, // the Authorization alphabet above
+	"Accept-Encoding":                {"", "gzip", "deflate", "gzip;q=0", "*"},
+	"Origin":                         {"", "http://evil"},
+	"Access-Control-Request-Method":  {"", "GET", "POST", "garbage"},
+	"Access-Control-Request-Headers": {"", "authorization"},
+	"Content-Encoding":               {"", "gzip"},
+	"Referer":                        {"", "http://evil/page"},
+	"User-Agent":                     {"", "verif-c20/1.0"},
+}
+
+type comboSets struct {
+	All    []Combo
+	Base   []int // Accept-Encoding {absent,gzip} x Origin {absent,evil}: sent with every Authorization value
+	Full   []int // full product Accept-Encoding x Origin x ACR-Method x ACR-Headers x Content-Encoding (+ Referer, User-Agent singly)
+	Single []int // base + every header value on its own (+ Origin for the preflight headers): sent with the right credentials
+	Cors   []int // Origin x ACR-Method x ACR-Headers: sent with methods that are not registered on a path
+	TCP    []int // base + a handful, through the real listener
+}
+
+func buildCombos() comboSets {
+	var cs comboSets
+	idx := map[string]int{}
+	gzBody := gzipBytes([]byte("{}"))
+	add := func(hs [][2]string) int {
+		var parts []string
+		var keep [][2]string
+		var body []byte
+		for _, h := range hs {
+			if h[1] == "" {
+				continue
+			}
+			keep = append(keep, h)
+			parts = append(parts, h[0]+"="+h[1])
+			if h[0] == "Content-Encoding" {
+				body = gzBody
+			}
+		}
+		id := strings.Join(parts, " & ")
+		if id == "" {
+			id = "(none)"
+		}
+		if i, ok := idx[id]; ok {
+			return i
+		}
+		idx[id] = len(cs.All)
+		cs.All = append(cs.All, Combo{ID: id, Headers: keep, Body: body})
+		return len(cs.All) - 1
+	}
+	for _, ae := range []string{"", "gzip"} {
+		for _, og := range VariedHeaders["Origin"] {
+			cs.Base = append(cs.Base, add([][2]string{{"Accept-Encoding", ae}, {"Origin", og}}))
+		}
+	}
+	for _, ae := range VariedHeaders["Accept-Encoding"] {
+		for _, og := range VariedHeaders["Origin"] {
+			for _, m := range VariedHeaders["Access-Control-Request-Method"] {
+				for _, h := range VariedHeaders["Access-Control-Request-Headers"] {
+					for _, ce := range VariedHeaders["Content-Encoding"] {
+						cs.Full = append(cs.Full, add([][2]string{{"Accept-Encoding", ae}, {"Origin", og},
+							{"Access-Control-Request-Method", m}, {"Access-Control-Request-Headers", h}, {"Content-Encoding", ce}}))
+					}
+				}
+			}
+		}
+	}
+	for _, og := range VariedHeaders["Origin"] {
+		for _, m := range VariedHeaders["Access-Control-Request-Method"] {
+			for _, h := range VariedHeaders["Access-Control-Request-Headers"] {
+				cs.Cors = append(cs.Cors, add([][2]string{{"Origin", og}, {"Access-Control-Request-Method", m}, {"Access-Control-Request-Headers", h}}))
+			}
+		}
+	}
+	cs.Single = append(cs.Single, cs.Base...)
+	for _, name := range []string{"Accept-Encoding", "Access-Control-Request-Method", "Access-Control-Request-Headers", "Content-Encoding", "Referer", "User-Agent"} {
+		for _, v := range VariedHeaders[name] {
+			if v == "" {
+				continue
+			}
+			i := add([][2]string{{name, v}})
+			cs.Single = append(cs.Single, i)
+			if name == "Referer" || name == "User-Agent" {
+				cs.Full = append(cs.Full, i)
+			}
+			if strings.HasPrefix(name, "Access-Control-") {
+				cs.Single = append(cs.Single, add([][2]string{{"Origin", "http://evil"}, {name, v}}))
+			}
+		}
+	}
+	cs.TCP = append(cs.TCP, cs.Base...)
+	cs.TCP = append(cs.TCP,
+		add([][2]string{{"Origin", "http://evil"}, {"Access-Control-Request-Method", "GET"}}),
+		add([][2]string{{"Origin", "http://evil"}, {"Access-Control-Request-Method", "POST"}, {"Access-Control-Request-Headers", "authorization"}}),
+		add([][2]string{{"Accept-Encoding", "deflate"}}),
+		add([][2]string{{"Content-Encoding", "gzip"}}))
+	cs.Single, cs.Full, cs.TCP = dedupInts(cs.Single), dedupInts(cs.Full), dedupInts(cs.TCP)
+	return cs
+}
+
+func dedupInts(l []int) []int {
+	seen := map[int]bool{}
+	var out []int
+	for _, x := range l {
+		if !seen[x] {
+			seen[x] = true
+			out = append(out, x)
+		}
+	}
+	return out
+}
+
+func gzipBytes(b []byte) []byte {
+	var out bytes.Buffer
+	w := gzip.NewWriter(&out)
+	w.Write(b)
+	w.Close()
+	return out.Bytes()
+}
+
+// representatives that get the FULL header product in the quick tier (thorough: the first value of every family)
+var fullProductReps = map[string]bool{"absent": true, "empty": true, "bearer_okpayload": true, "basic_bangs": true,
+	"x_plus_pass": true, "user_plus_x": true, "b64_user_emptypass": true}
+
+// assignCombos decides which header combinations go with which Authorization value.
+func assignCombos(vs []Variant, cs comboSets, thorough bool) {
+	famSeen := map[string]bool{}
+	for i := range vs {
+		v := &vs[i]
+		switch {
+		case v.Class == clsRight:
+			v.Combos = cs.Single
+		case fullProductReps[v.ID] || (thorough && !famSeen[v.Family]) || v.ID == lastProperPrefixID(vs):
+			v.Combos = dedupInts(append(append([]int{}, cs.Base...), cs.Full...))
+		default:
+			v.Combos = cs.Base
+		}
+		famSeen[v.Family] = true
+		if v.TCP {
+			v.TCPCombos = cs.TCP
+		}
+		if v.ID == "absent" || v.ID == "x_plus_pass" {
+			v.ProbeCombos = cs.Cors
+		}
+	}
+}
+
+func lastProperPrefixID(vs []Variant) string {
+	id := ""
+	for _, v := range vs {
+		if v.Family == "proper_prefix" {
+			id = v.ID
+		}
+	}
+	return id
+}
